@@ -46,6 +46,12 @@ def _common_random(rng, n_levels, n_leaves):
         'h5_layout': (str(rng.choice(['cols', 'rows', 'tall', 'wide',
                                       'small', 'gzip']))
                       if rng.random() < 0.3 else None),
+        # gene order of the query file relative to the reference
+        'query_order': [None, None, 'reference',
+                        'markers-interior-shuffled'][int(rng.integers(4))],
+        # sparse files whose minor indices are not sorted within a slice
+        'unsorted_indices': (int(rng.integers(1, 2 ** 31))
+                             if rng.random() < 0.3 else None),
     }
 
 
@@ -158,5 +164,7 @@ def features_of(spec, w=None):
         'markers': spec.get('marker_class'),
         'minm': spec.get('min_markers'),
         'layout': spec.get('h5_layout'),
+        'unsorted': spec.get('unsorted_indices') is not None,
+        'qorder': spec.get('query_order'),
     }
     return f
